@@ -177,12 +177,14 @@ def run(ctx):
     n_mp = 500 if quick else 8000
     n_trunc = 0
     for k in range(n_mp):
-        recs = gen_mp_records(rng, bgp_pool)
+        # the first files carry short BGP messages only, so that every truncation point of them can be run
+        every_cut = k < (12 if quick else 80)
+        recs = gen_mp_records(rng, bgp_pool[:5] if every_cut else bgp_pool)
         b = b''.join(r for r, _ in recs)
         lines.append('MP %s' % (b.hex() or '-'))
         meta.append(('mp', [it for _, it in recs]))
         # truncation points: every one for the first files, sampled afterwards
-        cuts = range(len(b)) if (k < (12 if quick else 80) and len(b) < 900) else [rng.below(len(b) + 1) for _ in range(3)]
+        cuts = range(len(b)) if (every_cut and len(b) < 2000) else [rng.below(len(b) + 1) for _ in range(3)]
         for cut in cuts:
             done = 0
             acc = 0
